@@ -7,6 +7,7 @@ import Proofs.Lemmas.Router.Rp1_Ack
 import Proofs.Lemmas.Router.Rp2_Payload
 import Proofs.Lemmas.Router.Rp5_Reach
 import Proofs.Lemmas.Router.Rp9_Reach
+import Proofs.Lemmas.Router.Rp10_Reach
 namespace C17
 open Router Router.Rp3 CommitLog
 
@@ -668,6 +669,71 @@ theorem quiescent_complete_group {cfg : Config} (h1 : 1 ≤ cfg.maxSegmentSize) 
   obtain ⟨v1, _, _⟩ := clog_readv_entries fd.log hist hrep grp.cursor n hiss (by omega)
   rw [hend', List.drop_length] at v1
   simpa using v1
+
+/-- C17 (membership, invariant). In every reachable state every client id in a shared group's `clients` is
+    the client id of a LIVE connection that holds a filter of that group (`$share/<key>`: `extract_group`
+    of the filter gives the group's key) in its `subscriptions`. Groups gain members only in
+    `prepare_filter` (the subscribing connection) and when a resumed session rejoins (`rejoinGroups`: the
+    connection being registered, whose restored subscriptions contain the filters of its restored
+    requests); they lose them in UNSUBSCRIBE (all entries of the client in that group) and at
+    disconnection (`removeFromGroups`, before the takeover registers the new connection).
+    `clients` CAN hold the same client id more than once — a second SUBSCRIBE to the same shared filter
+    appends the client again (`add_client` is called before the "already subscribed" check): this skews
+    round robin towards that client, but every entry still satisfies this invariant. -/
+theorem members_are_live_subscribers {cfg : Config} (h1 : 1 ≤ cfg.maxSegmentSize) (h2 : 1 ≤ cfg.maxSegmentCount)
+    (hpos : 0 < cfg.maxOutgoingPacketCount) {s : RState} (hr : Reachable cfg s) (hno : NoOverflow s) :
+    ∀ p ∈ s.shared, ∀ cid ∈ p.2.clients, ∃ id c, getConn s id = some c ∧ c.clientId = cid ∧
+      ∃ f ∈ c.subscriptions, ∃ path, extractGroup f = some (p.1, path) :=
+  MI.reachable h1 h2 hpos hr hno
+
+/-- C17 (members own a request of the group): with request conservation, every entry of a group's
+    `clients` belongs to a live connection that holds a subscription `$share/<key>` of the group AND owns
+    — in its tracker, parked, or in `notifications` — a data request with that filter whose `group` is the
+    group's key (C03 `request_conservation`: exactly one such request per (connection, filter)) -/
+theorem members_own_a_group_request {cfg : Config} (h1 : 1 ≤ cfg.maxSegmentSize) (h2 : 1 ≤ cfg.maxSegmentCount)
+    (hpos : 0 < cfg.maxOutgoingPacketCount) {s : RState} (hr : Reachable cfg s) (hno : NoOverflow s) :
+    ∀ p ∈ s.shared, ∀ cid ∈ p.2.clients, ∃ id c f r, getConn s id = some c ∧ c.clientId = cid ∧
+      f ∈ c.subscriptions ∧ (∃ path, extractGroup f = some (p.1, path)) ∧
+      Own s id r ∧ r.filter = f ∧ r.group = some p.1 := by
+  intro p hp cid hcid
+  obtain ⟨id, c, hc, e, f, hf, path, hx⟩ := MI.reachable h1 h2 hpos hr hno p hp cid hcid
+  have hq := QI.reachable h1 h2 hpos hr hno
+  obtain ⟨r, hown, hrf⟩ := hq.cover id f (by unfold subsOf; rw [hc]; exact hf)
+  have hg : r.group = some p.1 := by
+    have := hq.gt id r hown
+    unfold GT at this
+    rw [this, hrf, hx]; rfl
+  exact ⟨id, c, f, r, hc, e, hf, ⟨path, hx⟩, hown, hrf, hg⟩
+
+/-- `clients` can hold duplicates (kernel-evaluated): two SUBSCRIBEs of client `a` to `$share/g/t` -/
+example :
+    (match runX (init ⟨10, 1024, 2, 10, .roundRobin⟩)
+        [(.connect ⟨0, "a", true, false, 0, none⟩, []),
+         (.push 0 (.subscribe 1 none [⟨"$share/g/t", 0⟩]), []), (.push 0 (.subscribe 2 none [⟨"$share/g/t", 0⟩]), []),
+         (.event 0 .deviceData, [])] with
+     | .ok s => decide (s.shared.map (fun p => (p.1, p.2.clients)) = [("g/t", ["a", "a"])])
+     | .error _ => false) = true := by decide
+
+/-- C17 `quiescent_complete_group`, for reachable states WITHOUT the hypothesis on the turn holder: every
+    group has a turn holder, it is a live connection subscribed to the group's filter
+    (`group_liveness`, `members_are_live_subscribers`); if every connection that holds the turn of the group
+    is idle (tracker empty — `Paused(Caughtup)`), the group's cursor is at the END of the log of the
+    group's path and a read from it returns nothing. (A statement about the cursor, see
+    `quiescent_complete_group`.) -/
+theorem quiescent_complete_group_reachable {cfg : Config} (h1 : 1 ≤ cfg.maxSegmentSize) (h2 : 1 ≤ cfg.maxSegmentCount)
+    (hpos : 0 < cfg.maxOutgoingPacketCount) {s : RState} (hr : Reachable cfg s) (hno : NoOverflow s)
+    {g : String} {grp : SharedGroup} (hgm : (g, grp) ∈ s.shared)
+    (hidle : ∀ id c, getConn s id = some c → grp.current = some c.clientId → c.tracker.requests = []) :
+    ∃ (id : Nat) (c : Conn), getConn s id = some c ∧ grp.current = some c.clientId ∧
+    ∃ (i : Nat) (fd : FilterData) (hist : List Pub), s.datalog.filterIdx? (gpath g) = some i ∧
+      s.datalog.native[i]? = some fd ∧ Rep (logC fd.log) hist ∧ Issued (logC fd.log) grp.cursor ∧
+      cursorAbs (logC fd.log) grp.cursor = hist.length ∧
+      ∀ n, n ≤ MAX_INFLIGHT + s.config.maxOutgoingPacketCount → (fd.log.readv grp.cursor n).1 = [] := by
+  obtain ⟨_, hcur, _⟩ := group_liveness h1 h2 hpos hr hno
+  obtain ⟨cid, hcm, hcc⟩ := hcur (g, grp) hgm
+  obtain ⟨id, c, hc, hci, f, hf, path, hx⟩ := members_are_live_subscribers h1 h2 hpos hr hno (g, grp) hgm cid hcm
+  have hturn : grp.current = some c.clientId := by rw [hci]; exact hcc
+  exact ⟨id, c, hc, hturn, quiescent_complete_group h1 h2 hpos hr hno hgm hc hturn hf hx (hidle id c hc hturn)⟩
 
 /-! ### regression of the defect found by this invariant (evaluated, not kernel-checked: accepting a
     publish needs `String.fromUTF8?`, which the kernel cannot reduce) -/
